@@ -298,8 +298,18 @@ impl<'t> Int<'t> {
                 changes.branch(Sep::Nop);
 
                 let val = self.get_c_idx_with_context(changes, Argument::Register(lhs))?;
-                self.process_node(changes, if_block)?;
-                changes.branch(Sep::IfBranch(val, rhs));
+                // Build the guarded gate on an empty queue, so that it cannot be merged
+                // into a preceding unconditional block.
+                let before = std::mem::take(&mut changes.q_ops);
+                let res = self.process_node(changes, if_block);
+                let guarded = std::mem::replace(&mut changes.q_ops, before);
+                res?;
+                if !guarded.1.is_empty() {
+                    changes
+                        .q_ops
+                        .0
+                        .push_back((guarded.1, Sep::IfBranch(val, rhs)));
+                }
 
                 Ok(())
             }
